@@ -304,9 +304,26 @@ def run(ctx):
         pk = gen.PATTERNS[(n // 4) % 5]
         pg = gen.PropGen(rng, maxdepth=rng.randrange(1, 3), max_width=rng.choice((1, 2, 4)), kw_names=0.05)
         p, _, _ = pg.make(scope_kind=sk, pat_kind=pk, n=n)
+        const_pred = None
+        if n % 5 == 0:
+            # constant predicates (contradictions, tautologies) on one or all alternatives of one position
+            pos = A.prop_positions(p)
+            which = gen.pick(rng, sorted(pos))
+            const_pred = gen.pick(rng, (A.boolean(False), A.boolean(False), A.boolean(True), A.not_(A.boolean(True)),
+                                        ('bin', '=', A.num('1'), A.num('2'))))
+            alts = list(A.simple_events(pos[which]))
+            hit = range(len(alts)) if rng.random() < 0.6 else [rng.randrange(len(alts))]
+            for i in hit:
+                alts[i] = ('ev', alts[i][1], alts[i][2], const_pred)
+            events = dict(pos)
+            events[which] = alts[0] if pos[which][0] != 'disj' else ('disj', tuple(alts))
+            p = gen.assemble(p[2][1], p[3][1], events, p[3][4], p[1])
+            ctx.count('constant_predicate_properties')
         text = A.render_prop(p)
         o = hplapi.outcome(PP.parse, text)
         feats = {'api:canonical_form', 'shape:' + sk, 'shape:' + pk}
+        if const_pred is not None:
+            feats.add('shape:constant-predicate')
         if A.partial_alias_dependency(p):
             feats.add('shape:alias-bound-in-some-alternatives')
         ctx.begin_case(feats)
